@@ -26,6 +26,8 @@ type FuncCFG struct {
 	expandedHead map[*cfg.Block]bool
 	Expanded     []string
 	regionOf     map[*cfg.Block]*region  // nil entry = the analysed function itself
+	noConsist    int                     // >0: reach does plain reachability (no boolean consistency)
+	factCache    map[interface{}][]fact  // EdgeFacts per (block, branch)
 	rescan       map[*cfg.Block]bool     // spliced blocks: only calls of bound function values are expanded
 	litOnStack   map[*ast.BlockStmt]bool // literal bodies being spliced (recursion guard)
 	// CallsOpaque: Resolve/KeyAt do not look into spliced helpers for the value a call returns (the
@@ -179,13 +181,30 @@ func (f *FuncCFG) nodeBlocked(n ast.Node, o *searchOpts) bool {
 // returns, for the first target hit, the witness path (positions). target is called with
 // each point reached; exits are reported as Point{b, len(b.Nodes)} of exit blocks.
 func (f *FuncCFG) reach(from Point, o *searchOpts, target func(pt Point, atExit bool) bool) ([]string, bool) {
+	// Paths are kept consistent on boolean locals: a path that has crossed an edge on which the
+	// variable v is known true is not continued through an edge on which v is known false (and vice
+	// versa) unless v was assigned in between. This removes the infeasible paths that arise when the
+	// same flag is tested twice - typically once inside a spliced helper and once by its caller on the
+	// value the helper returned (`found := m.lookup(k)` / `if found { ... }` ... `if !found`).
 	type item struct {
-		b    *cfg.Block
-		i    int
-		path []string
+		b     *cfg.Block
+		i     int
+		path  []string
+		facts map[types.Object]bool
 	}
-	seen := map[*cfg.Block]bool{}
-	queue := []item{{from.B, from.I, nil}}
+	fp := func(b *cfg.Block, facts map[types.Object]bool) string {
+		if len(facts) == 0 {
+			return fmt.Sprintf("%p", b)
+		}
+		var ks []string
+		for o, v := range facts {
+			ks = append(ks, fmt.Sprintf("%d:%v", o.Pos(), v))
+		}
+		sort.Strings(ks)
+		return fmt.Sprintf("%p|%s", b, strings.Join(ks, ","))
+	}
+	seen := map[string]bool{}
+	queue := []item{{from.B, from.I, nil, nil}}
 	first := true
 	for len(queue) > 0 {
 		it := queue[0]
@@ -194,14 +213,16 @@ func (f *FuncCFG) reach(from Point, o *searchOpts, target func(pt Point, atExit 
 			continue
 		}
 		if !first || it.i == 0 {
-			if seen[it.b] {
+			k := fp(it.b, it.facts)
+			if seen[k] {
 				continue
 			}
-			seen[it.b] = true
+			seen[k] = true
 		}
 		first = false
 		blocked := false
 		path := it.path
+		facts := it.facts
 		for i := it.i; i < len(it.b.Nodes); i++ {
 			n := it.b.Nodes[i]
 			if target(Point{it.b, i}, false) {
@@ -210,6 +231,41 @@ func (f *FuncCFG) reach(from Point, o *searchOpts, target func(pt Point, atExit 
 			if f.nodeBlocked(n, o) {
 				blocked = true
 				break
+			}
+			// an assignment to a tracked variable ends what is known about it
+			if len(facts) > 0 {
+				var killed []types.Object
+				inspectNoLit(n, func(m ast.Node) bool {
+					switch x := m.(type) {
+					case *ast.AssignStmt:
+						for _, l := range x.Lhs {
+							if ob := objOfIdentRaw(f.Info, l); ob != nil {
+								if _, has := facts[ob]; has {
+									killed = append(killed, ob)
+								}
+							}
+						}
+					case *ast.UnaryExpr:
+						if x.Op == token.AND {
+							if ob := objOfIdentRaw(f.Info, x.X); ob != nil {
+								if _, has := facts[ob]; has {
+									killed = append(killed, ob)
+								}
+							}
+						}
+					}
+					return true
+				})
+				if len(killed) > 0 {
+					nf := map[types.Object]bool{}
+					for k2, v2 := range facts {
+						nf[k2] = v2
+					}
+					for _, k2 := range killed {
+						delete(nf, k2)
+					}
+					facts = nf
+				}
 			}
 		}
 		if blocked {
@@ -227,11 +283,44 @@ func (f *FuncCFG) reach(from Point, o *searchOpts, target func(pt Point, atExit 
 				return append(path, "exit at "+f.P.posStr(end)), true
 			}
 		}
+		isBranch := len(it.b.Succs) == 2 && condOf(it.b) != nil && f.noConsist == 0
 		for si, s := range it.b.Succs {
 			if o != nil && o.AvoidEdge != nil && o.AvoidEdge(Edge{it.b, si}) {
 				continue
 			}
-			queue = append(queue, item{s, 0, path})
+			nf := facts
+			if isBranch {
+				contradiction := false
+				for _, ft := range f.EdgeFacts(it.b, si == 0) {
+					id, isId := ast.Unparen(ft.Atom).(*ast.Ident)
+					if !isId {
+						continue
+					}
+					ob, _ := f.Info.Uses[id].(*types.Var)
+					if ob == nil {
+						continue
+					}
+					if bt, isB := ob.Type().Underlying().(*types.Basic); !isB || bt.Info()&types.IsBoolean == 0 {
+						continue
+					}
+					if v, has := nf[ob]; has {
+						if v != ft.Pol {
+							contradiction = true
+						}
+						continue
+					}
+					cp := map[types.Object]bool{}
+					for k2, v2 := range nf {
+						cp[k2] = v2
+					}
+					cp[ob] = ft.Pol
+					nf = cp
+				}
+				if contradiction {
+					continue
+				}
+			}
+			queue = append(queue, item{s, 0, path, nf})
 		}
 	}
 	return nil, false
@@ -471,8 +560,25 @@ func (f *FuncCFG) forEachEdgeFact(fn func(e Edge, b *cfg.Block, ft fact)) {
 // lexical temporaries: it also covers tuple definitions and operands that are reassigned only
 // after the branch.
 func (f *FuncCFG) expandBoolTemp(ft fact, pt Point, depth int) []fact {
+	if depth <= 0 {
+		return []fact{ft}
+	}
+	// `if helper(...)` with the helper spliced and returning one expression at one site: the branch
+	// is on that expression (evaluated where the helper returned)
+	if cl, isCall := ast.Unparen(ft.Atom).(*ast.CallExpr); isCall {
+		if reg := f.regionByCall(cl); reg != nil && len(reg.rets) == 1 && len(reg.rets[0].results) == 1 {
+			var out []fact
+			for _, sub := range factsOn(reg.rets[0].results[0], ft.Pol) {
+				out = append(out, f.expandBoolTemp(sub, reg.rets[0].pt, depth-1)...)
+			}
+			if len(out) > 0 {
+				return out
+			}
+		}
+		return []fact{ft}
+	}
 	id, ok := ast.Unparen(ft.Atom).(*ast.Ident)
-	if !ok || depth <= 0 {
+	if !ok {
 		return []fact{ft}
 	}
 	obj, _ := f.Info.Uses[id].(*types.Var)
@@ -2597,6 +2703,18 @@ func (f *FuncCFG) EdgeFacts(b *cfg.Block, branch bool) []fact {
 	if c == nil {
 		return nil
 	}
+	type ek struct {
+		b  *cfg.Block
+		br bool
+	}
+	if f.factCache == nil {
+		f.factCache = map[interface{}][]fact{}
+	}
+	if fs, ok := f.factCache[ek{b, branch}]; ok {
+		return fs
+	}
+	f.noConsist++ // the searches made while computing facts are plain reachability
+	defer func() { f.noConsist-- }()
 	if tag, ok := caseTagOf[c]; ok {
 		c = &ast.BinaryExpr{X: tag, Op: token.EQL, Y: c}
 	}
@@ -2604,5 +2722,6 @@ func (f *FuncCFG) EdgeFacts(b *cfg.Block, branch bool) []fact {
 	for _, ft := range factsOn(c, branch) {
 		out = append(out, f.expandBoolTemp(ft, Point{b, len(b.Nodes) - 1}, 3)...)
 	}
+	f.factCache[ek{b, branch}] = out
 	return out
 }
